@@ -95,6 +95,8 @@ def attsOps (args : List String) : Option String :=
     let (pos, t1) ← decPos pos
     let (kw, t2) ← decKw kw
     pure (encExcept encFmt (fmtfuncApply (mkLower (t1 ++ t2)) bound (← decFmt f) pos kw))
+  | ["cwnatts", f, a] => do
+    pure ("ok " ++ encFmt (copyWithNewAtts (← decFmt f) (← decAtts (if a == "e" then "" else a))))
   | ["splitspans", f, spans] => do
     pure ("ok " ++ encFmtList (splitSpans (← decFmt f) (← decSpans spans)))
   | ["splitsep", f, sep] => do
